@@ -204,6 +204,20 @@ META["C14"] = {
     "require": {"quick": {"conversions_covered": 3, "gate_scenarios": 12}, "thorough": {"conversions_covered": 3, "gate_scenarios": 60}},
 }
 
+META["C11"] = {
+    "title": "publish/connect and share subscribe the source once and multicast",
+    "rule": "cases = (share | share_threads | publish::<Subject>()+fork()/connect(), source hot Subject behind a tap counter | deferred cold synchronous source behind a subscription counter | interval(5ms) on the virtual clock behind a tap counter, history of length <= 10 quick / <= 18 thorough over subscribe(k) / unsubscribe(k) / source-emit / source-complete / connect / one-period tick, k < 3, one subscription per slot). Checked in lock step against a multicast model: who was subscribed at each emission receives it once, in order; the source is not subscribed before connect(); it is subscribed at most once; after the last subscriber's unsubscribe() returned the tap counter no longer moves on later source events (hot) or one period later (interval). Non-trivial: at least two subscribers overlapped and one left before the source ended; distinct = hash(case).",
+    "assumptions": COMMON_ASSUME + [
+        "re-joining a share after its subscriber count dropped to zero is unspecified and not generated",
+        "a cold synchronous source emits during the connecting subscription: only subscribers present at that moment receive those items",
+    ],
+    "technique": "runtime monitoring: recording probes, upstream tap counter and source-subscription counter on the real share/publish operators under random subscribe/unsubscribe/emit histories, compared with a multicast model",
+    "level_text": "Exploration over sampled histories for three source kinds and three multicast spellings.",
+    "level_note": "Trusted: multicast model in harness/src/props/c11.rs, virtual clock for the interval source.",
+    "design_ref": "DESIGN.md §5 C11",
+    "require": {"quick": {"modes_covered": 8, "histories_where_the_last_subscriber_left": 5000}, "thorough": {"modes_covered": 8}},
+}
+
 
 # properties without a check yet are listed here with the reason; the list shrinks as checks land
 ALL_IDS = ['C01', 'C02', 'C03', 'C04', 'C05', 'C06', 'C07', 'C08', 'C09', 'C10', 'C11', 'C12', 'C13', 'C14', 'C15', 'C16', 'C17', 'C18', 'C19', 'C20']
